@@ -762,7 +762,6 @@ fn cmd_convgen(outdir: &str, n: u64) {
             samples.push(if h.len() > 200 { format!("{}…", &h[..200]) } else { h.clone() });
         }
         let dec_in = run_op("dec", &[&h]);
-        let skip_in = run_op("skip", &[&h]);
 
         // (from, to) pairs: one real downgrade, two from {none, 1.13..1.21}^2, sometimes an exotic one
         let mut todo: Vec<(String, String)> = Vec::new();
@@ -829,9 +828,9 @@ fn cmd_convgen(outdir: &str, n: u64) {
                 if !dec_in.starts_with('!') {
                     fail("conversion fails on a well-formed value", "");
                 }
-                if skip_in.parse::<usize>().ok() == Some(bytes.len()) {
-                    fail("conversion fails on input that is well-formed up to UTF-8 (skip accepts all of it)", &format!("skip={}", skip_in));
-                }
+                // ("fails only for ill-formed input, UTF-8 aside" beyond this is decided by the
+                // correspondence with the model's convert_api, not by the skip walker, which is C07's
+                // subject: a defect there must not raise an alarm here)
                 continue;
             }
             let changed = res != h;
@@ -854,10 +853,6 @@ fn cmd_convgen(outdir: &str, n: u64) {
             writeln!(imp, "{}", v1).unwrap();
             if v1 != "1" {
                 fail("converted value contains a 1.20 container encoding (or is no pre-1.20 value)", "");
-            }
-            let skip_out = run_op("skip", &[&res]);
-            if skip_out.parse::<usize>().ok() != Some(res.len() / 2) {
-                fail("converted value is not skippable as a whole", &format!("skip_out={}", skip_out));
             }
             // converting twice equals converting once
             let again = run_op("conv", &["none", "1.19", &res]);
